@@ -244,6 +244,66 @@ pub fn run(ctx: &Ctx) -> Report {
         st = st.merge(st4);
     }
 
+    // (1b) the scope date is the UTC date of the instant, whatever offset the timestamp is written in: for offsets of
+    //      either sign from one minute to fourteen hours (sub-hour ones included), a local time ten minutes from
+    //      midnight on the side where the UTC date differs from the written one; credential dated with the UTC date
+    //      (accepted) or with the written date (refused)
+    {
+        let offs: [(i64, i64); 12] = [(0, 1), (0, 14), (0, 30), (0, 59), (1, 0), (1, 1), (3, 30), (5, 45), (9, 30), (12, 45), (13, 59), (14, 0)];
+        let n1b = (offs.len() * 2 * 2 * 2 * 2) as u64;
+        let base1b = total1 + total2 + 40_000_000;
+        let st1b = par_sweep(n1b, |i, st| {
+            let mut x = i as usize;
+            let carrier = if x % 2 == 0 { Carrier::Header } else { Carrier::Query };
+            x /= 2;
+            let extended = x % 2 == 1;
+            x /= 2;
+            let utc_dated = x % 2 == 0;
+            x /= 2;
+            let negative = x % 2 == 1;
+            x /= 2;
+            let (oh, om) = offs[x];
+            let off_min = (oh * 60 + om) * if negative { -1 } else { 1 };
+            // written local time: 23:50 for a negative offset (UTC is later: the next day), 00:10 for a positive one
+            // (UTC is earlier: the previous day) -- provided the offset is at least ten minutes; below that 23:59:30 / 00:00:30
+            let small = oh == 0 && om < 10;
+            let (lh, lm, ls) = match (negative, small) {
+                (true, false) => (23, 50, 0),
+                (true, true) => (23, 59, 30),
+                (false, false) => (0, 10, 0),
+                (false, true) => (0, 0, 30),
+            };
+            let local = Instant::from_civil(2015, 8, 31, lh, lm, ls, 0);
+            let inst = Instant::new(local.secs - off_min * 60, 0);
+            let sign = if negative { '-' } else { '+' };
+            let text = if extended {
+                format!("2015-08-31T{:02}:{:02}:{:02}{}{:02}:{:02}", lh, lm, ls, sign, oh, om)
+            } else {
+                format!("20150831T{:02}{:02}{:02}{}{:02}{:02}", lh, lm, ls, sign, oh, om)
+            };
+            let mut plan = e2e::base_plan(carrier);
+            plan.instant = inst;
+            plan.date_text = text.clone();
+            let date = if utc_dated { inst.date8() } else { "20150831".to_string() };
+            plan.scope = format!("{}/us-east-1/service/aws4_request", date);
+            plan.key = refmodel::hmac::chain(e2e::SECRET.as_bytes(), &date, b"us-east-1", b"service").ksigning;
+            let case = Case { wire: WireReq::from_wire(&build(&plan).wire), cfg: Cfg::basic(inst), prov: ProvSpec::standard() };
+            let before = st.violations.len();
+            let j = e2e::judge_into(base1b + i, &case, st);
+            if st.violations.len() > before {
+                if let Some(v) = st.violations.last_mut() {
+                    v.what = format!("utc-date-of({}; credential dated {}):{}", text, date, v.what);
+                }
+            }
+            if !j.unspecified && inst.date8() != "20150831" && j.reference.accepted() != utc_dated {
+                crate::core::machinery_error(&format!("C03 (1b): reference verdict for {} / {} is {:?}", text, date, j.reference.error));
+            }
+            st.state(&(j.reference.stage as u8, j.reference.error.map(|k| k.name()), "utc-date"));
+            st.nontrivial(&(text, utc_dated, carrier, "utc-date"));
+        });
+        st = st.merge(st1b);
+    }
+
     // (4b) the provider decides: a key store indexed by the exact (access key, session token) pair that holds only
     //      some of the pairs and answers every other pair with an error; the request is refused with that error and the
     //      provider is asked once, for the pair of the request (no second question with another key or token)
@@ -386,7 +446,7 @@ pub fn run(ctx: &Ctx) -> Report {
     Report {
         stats: st,
         rule: format!(
-            "(1) five-part credentials: 12 date variants (exact, -1 day, +1 day, 7 digits, trailing space, extended, empty, written-local date, and the numerically equal spellings +D, 0D, 00D, D.0) x 12 near-misses each of region, service and terminator (exact, prefix, suffix, x+v, v+x, UPPER, empty, look-alike, trailing blank, leading blank, lower, case-swapped) x {} server (region, service) pairs (incl. a mixed-case one, empty strings, non-ASCII and 300-character values) x {} request instants (incl. 23:59:59Z, 00:00:00Z and offsets whose UTC date differs from the written date) x signing mode A (correctly signed under the credential's own scope; provider returns that key unconditionally) / B (signed under the server's scope) x carrier; (2) credentials of 1..8 parts, with leading/trailing/double slashes, empty access key and no slash at all, and credentials whose correct five-part text ends exactly at / next to lengths 64 .. 65536 followed by a sixth part or a longer terminator; (3) every sequence of 1..3 validations on one thread over 50 symbols (5 server configurations, one differing from another in letter case only, x credential scoped for any of the 5 x carrier): each judged as if it were alone; (4) 9 access keys (case variant, inner / trailing blank, literal percent signs, non-ASCII, one character) x 10 session tokens (none, reserved characters, literal percent signs, inner blanks, commas, non-ASCII, 4 kB, case variant, trailing blank) x carrier x token signed or not: the provider is asked for exactly that access key and token; (4b) 6 access keys (incl. the AKIA / ASIA / AROA / AIDA prefixes of real key ids) x 3 tokens (none, a stale one, empty) x a key store indexed by the exact (key, token) pair holding each of the 16 subsets of (key alone, key with this token, key with another token, another key with this token) x every error it can answer an unknown pair with (all SignatureError kinds, an io::Error, a string) x 8 identities attached to its answers x carrier: refused with that error unless the store holds the request's own pair, and the store is asked exactly once; (4c) the server configured for each of 62 AWS region codes / pseudo-regions (and each of 70 service signing names) x the credential scoped for each of them x carrier. Oracle: reference verifier (Ok iff all five parts right; arity => IncompleteSignature/400; other mismatch => SignatureDoesNotMatch/403 also in mode A; provider asked iff scope fully correct, with (access key, token, UTC date, server region, server service)). states = distinct (stage, kind, provider ask)",
+            "(1) five-part credentials: 12 date variants (exact, -1 day, +1 day, 7 digits, trailing space, extended, empty, written-local date, and the numerically equal spellings +D, 0D, 00D, D.0) x 12 near-misses each of region, service and terminator (exact, prefix, suffix, x+v, v+x, UPPER, empty, look-alike, trailing blank, leading blank, lower, case-swapped) x {} server (region, service) pairs (incl. a mixed-case one, empty strings, non-ASCII and 300-character values) x {} request instants (incl. 23:59:59Z, 00:00:00Z and offsets whose UTC date differs from the written date) x signing mode A (correctly signed under the credential's own scope; provider returns that key unconditionally) / B (signed under the server's scope) x carrier; (1b) timestamps ten minutes (or thirty seconds) from local midnight written with 12 offsets of either sign from 00:01 to 14:00 (sub-hour ones included), basic and extended, so that the UTC date differs from the written date: the credential dated with the UTC date is accepted, the one dated with the written date refused; (2) credentials of 1..8 parts, with leading/trailing/double slashes, empty access key and no slash at all, and credentials whose correct five-part text ends exactly at / next to lengths 64 .. 65536 followed by a sixth part or a longer terminator; (3) every sequence of 1..3 validations on one thread over 50 symbols (5 server configurations, one differing from another in letter case only, x credential scoped for any of the 5 x carrier): each judged as if it were alone; (4) 9 access keys (case variant, inner / trailing blank, literal percent signs, non-ASCII, one character) x 10 session tokens (none, reserved characters, literal percent signs, inner blanks, commas, non-ASCII, 4 kB, case variant, trailing blank) x carrier x token signed or not: the provider is asked for exactly that access key and token; (4b) 6 access keys (incl. the AKIA / ASIA / AROA / AIDA prefixes of real key ids) x 3 tokens (none, a stale one, empty) x a key store indexed by the exact (key, token) pair holding each of the 16 subsets of (key alone, key with this token, key with another token, another key with this token) x every error it can answer an unknown pair with (all SignatureError kinds, an io::Error, a string) x 8 identities attached to its answers x carrier: refused with that error unless the store holds the request's own pair, and the store is asked exactly once; (4c) the server configured for each of 62 AWS region codes / pseudo-regions (and each of 70 service signing names) x the credential scoped for each of them x carrier. Oracle: reference verifier (Ok iff all five parts right; arity => IncompleteSignature/400; other mismatch => SignatureDoesNotMatch/403 also in mode A; provider asked iff scope fully correct, with (access key, token, UTC date, server region, server service)). states = distinct (stage, kind, provider ask)",
             n_serv, n_inst
         ),
         bounds: json!({"servers": n_serv, "instants": n_inst, "cases": total1 + total2}),
